@@ -262,6 +262,21 @@ def cap_scenarios(shapes, count, nops, seed):
                 out.append(Scenario(sh, base + [f"reserve r0 {n}", "caps r0", f"promise r0 {n}", "capacity r0", "promise r0"], "reserve"))
                 out.append(Scenario(sh, base + [f"reserve_exact r0 {n}", "caps r0", f"promise r0 {n}", "capacity r0", "promise r0"], "reserve_exact"))
                 out.append(Scenario(sh, base + [f"reserve r0 {n}", "shrink_to_fit r0", "caps r0", "capacity r0", "promise r0"], "shrink"))
+        # the reserved room is used up by any mix of growing operations, not only by push: reserve(n), grow by k <= n through
+        # another operation, then the remaining n - k pushes must not reallocate either
+        for pre in (0, 1, 5):
+            for n in (4, 9, 17):
+                for k in (1, 3, n):
+                    base = [setup(pre)] if pre else ["new r0"]
+                    for how, cmd in (("reserve", f"reserve r0 {n}"), ("reserve_exact", f"reserve_exact r0 {n}")):
+                        consume = [[setup(k, "r1", 10), "append r0 r1"], [f"extend r0 {tl(tags(k, 12))}"], [f"insert r0 0 {8 + j}" for j in range(k)]]
+                        if sh not in NOCLONE:
+                            consume += [[setup(k, "r1", 10), "extend_from_slice r0 r1"], [setup(k, "r1", 10), "extend_refs r0 r1"], [f"resize r0 {pre + k} 27"]]
+                        for c in consume:
+                            out.append(Scenario(sh, base + [cmd] + c + ["caps r0", f"promise r0 {n - k}", "len r0"], "reserve-then-" + c[-1].split()[0]))
+                    if pre == 0:
+                        for c in ([setup(k, "r1", 10), "append r0 r1"], [f"extend r0 {tl(tags(k, 12))}"]):
+                            out.append(Scenario(sh, [f"with_capacity r0 {n}"] + c + ["caps r0", f"promise r0 {n - k}", "len r0"], "with_capacity-then-" + c[-1].split()[0]))
     for k in range(count):
         sh = shapes[k % len(shapes)]
         cl = sh not in NOCLONE
@@ -572,6 +587,7 @@ def fault_scenarios(shapes, L, seed):
                 for mask in (("1" * n), ("0" * n), "".join("10"[(i + k) % 2] for i in range(n)), "".join(rng.choice("01") for _ in range(n))):
                     retain.append(Scenario(sh, base + [f"retain r0 keep={mask} panic={k}"] + AFTER, "retain-fault"))
                     retain.append(Scenario(sh, base + [f"retain_mut r0 keep={mask} panic={k} wleaf={k % nl} wtag=17"] + AFTER, "retain_mut-fault"))
+                    retain.append(Scenario(sh, base + [f"retain_mut r0 keep={mask} panic={k}"] + AFTER, "retain_mut-fault"))
             # sorts: comparator / key function / the user's Ord; the number of calls depends on std's algorithm:
             # every k up to a generous bound (a fuse that is never reached simply does not fire)
             for entry in SORT_ENTRIES:
